@@ -39,6 +39,31 @@
 //! (`-` | `asset.amount[+asset.amount…]`), `dbala` / `daoa` = distributor / DAO balance per asset,
 //! `uba` = bonder balances per asset (`a.b.c` per bonder).
 //!
+//! STRAY COINS.  Any execute message can carry native coins.  The user-level ops `collect aggregate newepoch
+//! claim fwd colcfg grace distasset addroute rmroute bond unbond` take optional TRAILING tokens
+//! `+<asset idx>:<amount>` (coins of an asset of the world) and / or `+j:<amount>` (the unrelated denom
+//! `zjunk`, minted to every sender at init), attached to the message by its sender (about 5 % of these
+//! ops; route ops only ever get `+j`: the router would spend an asset of the world in its next swap).  No
+//! entry point of the collector / distributor / router and not the lair's `Unbond` looks at `info.funds`:
+//! the coins stay on the contract that received the message (a gift, then the op, atomically); the lair's
+//! `Bond` refuses them (`validate_funds`: exactly one coin).  Observation tokens `jb=<zjunk on collector>,
+//! <distributor>,<router>,<lair>` and `lb=<lair balance per asset>`.  The monitors judge an op with coins
+//! attached as the op after the gift (`pre` + gift), so every exactness monitor below also says that the
+//! coins are on the receiving contract and nowhere else.
+//!
+//! DENOM SHAPES.  `init … dn=<k>` (ignored by the driver: the model does not look at names) builds the world
+//! with nasty denoms for the three base assets: 1 = the distribution asset is an IBC voucher with UPPER-CASE
+//! hex; 2 = it is a token-factory denom `factory/<addr>/uusdc` whose last segment equals asset 1's denom (no
+//! vault for it: the cw20 LP symbol `uLP-factory/` is refused); 3 = `uwhale` / `uWhaleX` / `uWhale` (case
+//! variant, the distribution asset a prefix of asset 1); 4 = the lower-cased twin of the distribution
+//! asset's IBC denom / a prefix of it / the IBC voucher; 5 = three IBC vouchers in ascending order (also in
+//! `--variant many`).  A switch of the distribution asset makes the other shapes the distribution asset.
+//!
+//! C07 monitors (`collect_*`): a direct or pipeline collection moves exactly the pending fees above the
+//! thresholds from each pair / vault to the collector, pair reserves and vault share backing unchanged
+//! (reserves move only by what the aggregation swaps of the same transaction traded), and nothing of what
+//! the caller attached is on a pair / vault / factory / the DAO.
+//!
 //! The monitors evaluate C09 / C10 as stated on the real observations, PER ASSET (balance deltas against ledger
 //! deltas), using only their own bookkeeping (who bonded when, who was paid for which epoch, which epoch
 //! has left the grace window) — never the model.
@@ -93,11 +118,38 @@ fn nat(d: &str) -> AssetInfo {
     AssetInfo::NativeToken { denom: d.into() }
 }
 
-/// denom of asset `i`: the three base assets, then the fillers `uxaa, uxab, …` (all above `uwhale`,
-/// fixed width: ascending in index order and prefix-free)
-fn asset_denom(i: usize) -> String {
+/// the unrelated denom every sender holds (stray coins `+j:<amount>`)
+const JUNK: &str = "zjunk";
+/// an IBC voucher: UPPER-CASE hex (what `ibc/<sha256 of the trace>` looks like on a real chain)
+const IBC_A: &str = "ibc/27394FB092D2ECCD56123C74F36E4C1F926001CEADA9CA97EA622B25F41E5EB2";
+const IBC_0: &str = "ibc/0471F1C4E7AFD3F07702BEF6DC365268D64570F7C1FDC98EA6098DD6DE59817B";
+const IBC_1: &str = "ibc/13B2C536BB057AC79D5616B8EA1B9540EC1F2170718CAFF6F0083C966FFFED0B";
+
+/// denoms of the three base assets for the denom shape `dn` (see the module doc).  NOT instantiable, noted:
+/// a vault for a `factory/…` denom (cw20 LP symbol `uLP-factory/` has a `/`), denoms with digits as vault
+/// assets unless they start with `ibc` (symbol letters only), and two IBC vouchers whose hashes share the
+/// first and the last four characters (the collector's TMP_ASSET_INFOS is keyed by the LABEL `ibc/abcd...wxyz`).
+fn base_denoms(dn: u64) -> [String; 3] {
+    let v: [&str; 3] = match dn {
+        1 => ["uatom", "uusdc", IBC_A],
+        2 => ["uatom", "uusdc", "factory/migaloo1contractaddressofthecreator0xyz/uusdc"],
+        3 => ["uwhale", "uWhaleX", "uWhale"],
+        4 => ["", "ibc/27394FB0", IBC_A],
+        5 => [IBC_0, IBC_1, IBC_A],
+        _ => ASSETS,
+    };
+    let mut out = v.map(|x| x.to_string());
+    if dn == 4 {
+        out[0] = IBC_A.to_lowercase(); // "ibc/27394fb0…": differs from the distribution asset only in case
+    }
+    out
+}
+
+/// denom of asset `i`: the three base assets (by denom shape), then the fillers `uxaa, uxab, …` (all above
+/// `uwhale` and above `ibc/…`, fixed width: ascending in index order and prefix-free)
+fn asset_denom(dn: u64, i: usize) -> String {
     if i < ASSETS.len() {
-        ASSETS[i].to_string()
+        base_denoms(dn)[i].clone()
     } else {
         // letters only: the vault's LP token symbol `uLP-<denom>` must match [a-zA-Z\-]{3,12}
         let k = i - ASSETS.len();
@@ -114,10 +166,10 @@ enum Amt {
     Other,
 }
 impl Amt {
-    fn of(v: &[Asset]) -> Amt {
+    fn of(d0: &str, v: &[Asset]) -> Amt {
         match v {
             [] => Amt::Empty,
-            [a] if a.info == nat(ASSETS[DIST]) => Amt::One(a.amount.u128()),
+            [a] if a.info == nat(d0) => Amt::One(a.amount.u128()),
             _ => Amt::Other,
         }
     }
@@ -172,6 +224,24 @@ struct Ep {
     claimed_l: Led,
 }
 
+/// real-world quantities the C07 collection monitors compare before / after a collection (not part of the
+/// observation line: the model has no reserves)
+#[derive(Clone, Debug, Default)]
+struct Extra {
+    /// bank balance of every pair in its two assets
+    pool_bal: Vec<(u128, u128)>,
+    /// reserves as reported by the pair's `Pool {}` query, and its LP supply
+    pool_res: Vec<(u128, u128, u128)>,
+    /// bank balance of every vault in its asset, and its LP supply
+    vault_bal: Vec<u128>,
+    vault_sup: Vec<u128>,
+    /// the unrelated denom on pairs, vaults, factories, the DAO, the borrower
+    junk_elsewhere: u128,
+    /// assets of the world on a pair that does not trade them / on a vault of another asset
+    foreign_on_pools: u128,
+    foreign_on_vaults: u128,
+}
+
 #[derive(Clone, Debug, PartialEq, Eq, Default)]
 struct Obs {
     grace: u64,
@@ -196,6 +266,10 @@ struct Obs {
     dbala: Vec<u128>,
     daoa: Vec<u128>,
     uba: Vec<Vec<u128>>,
+    /// the unrelated denom on collector / distributor / router / lair
+    jb: [u128; 4],
+    /// the lair's balance per asset of the world
+    lb: Vec<u128>,
 }
 
 fn join<T: ToString>(xs: &[T], sep: &str) -> String {
@@ -224,7 +298,7 @@ impl Obs {
         let pp: Vec<String> = self.pp.iter().map(|(a, b)| format!("{a}:{b}")).collect();
         let b = |xs: &[bool]| xs.iter().map(|x| if *x { "1" } else { "0" }).collect::<String>();
         format!(
-            "grace={} dbal={} dao={} cbal={} ep={} trh={} ub={} cl={} pp={} vp={} reg={} on={} rt={} rate={} active={} daoset={} dist={} epa={} dbala={} daoa={} uba={}",
+            "grace={} dbal={} dao={} cbal={} ep={} trh={} ub={} cl={} pp={} vp={} reg={} on={} rt={} rate={} active={} daoset={} dist={} epa={} dbala={} daoa={} uba={} jb={} lb={}",
             self.grace,
             self.dbal,
             self.dao,
@@ -246,6 +320,8 @@ impl Obs {
             join(&self.dbala, ","),
             join(&self.daoa, ","),
             join(&uba, ","),
+            join(&self.jb, ","),
+            join(&self.lb, ","),
         )
     }
     /// sum over all epochs of `available` in asset `a`
@@ -336,13 +412,19 @@ impl World {
             .chain(vault_assets.iter().copied())
             .fold(ASSETS.len() - 1, usize::max)
             + 1;
-        let assets: Vec<String> = (0..nassets).map(asset_denom).collect();
-        // what the model assumes about labels: ascending in index order and prefix-free
-        assert!(assets.windows(2).all(|w| w[0] < w[1]), "asset denoms must ascend");
-        assert!(
-            assets.iter().all(|a| assets.iter().all(|b| a == b || !b.starts_with(a.as_str()))),
-            "asset denoms must be prefix-free"
-        );
+        let dn = getn("dn", 0);
+        let assets: Vec<String> = (0..nassets).map(|i| asset_denom(dn, i)).collect();
+        // what the model assumes about labels WHEN PAGES MATTER (more entries than a factory page lists by
+        // default; the limits the engine sends to a three-pair world are 30): ascending in index order and
+        // prefix-free.  The nasty denom shapes 1 - 4 are for the base worlds only.
+        if pool_assets.len() > 10 || vault_assets.len() > 10 {
+            assert!(assets.windows(2).all(|w| w[0] < w[1]), "asset denoms must ascend");
+            assert!(
+                assets.iter().all(|a| assets.iter().all(|b| a == b || !b.starts_with(a.as_str()))),
+                "asset denoms must be prefix-free"
+            );
+        }
+        assert!(assets.iter().collect::<BTreeSet<_>>().len() == assets.len(), "asset denoms must be distinct");
         let growth = kv.get("growth").and_then(|s| s.parse::<u128>().ok()).unwrap_or(0);
         let liq = kv.get("liq").and_then(|s| s.parse::<u128>().ok()).unwrap_or(1_000_000_000_000);
 
@@ -352,12 +434,12 @@ impl World {
         let dao = Addr::unchecked("dao");
         let users: Vec<Addr> = (0..NUSERS).map(|i| Addr::unchecked(format!("user{i}"))).collect();
         let big = 10u128.pow(24);
-        let mut bals = vec![
-            (admin.clone(), assets.iter().map(|d| coin(big, d.as_str())).collect::<Vec<_>>()),
-            (trader.clone(), assets.iter().map(|d| coin(big, d.as_str())).collect::<Vec<_>>()),
-        ];
+        // every sender holds the unrelated denom (stray coins); the stranger also holds the assets of the world
+        // (its balances are no observable). The bonders start without any asset of the world.
+        let rich = |_: &Addr| assets.iter().map(|d| coin(big, d.as_str())).chain([coin(big, JUNK)]).collect::<Vec<_>>();
+        let mut bals = vec![(admin.clone(), rich(&admin)), (trader.clone(), rich(&trader)), (stranger.clone(), rich(&stranger))];
         for u in &users {
-            bals.push((u.clone(), BOND_DENOMS.iter().map(|d| coin(10u128.pow(15), *d)).collect()));
+            bals.push((u.clone(), BOND_DENOMS.iter().map(|d| coin(10u128.pow(15), *d)).chain([coin(big, JUNK)]).collect()));
         }
         let mut app = AppBuilder::new().with_bank(BankKeeper::new()).build(|router, _api, storage| {
             for (a, c) in bals {
@@ -453,7 +535,7 @@ impl World {
                     fee_collector_addr: col.to_string(),
                     grace_period: grace.into(),
                     epoch_config: EpochConfig { duration: dur.into(), genesis_epoch: genesis.into() },
-                    distribution_asset: nat(ASSETS[DIST]),
+                    distribution_asset: nat(&assets[DIST]),
                 },
                 &[],
                 "dist",
@@ -758,9 +840,9 @@ impl World {
             eps.push(Ep {
                 id: e.id.u64(),
                 start: e.start_time.nanos(),
-                total: Amt::of(&e.total),
-                avail: Amt::of(&e.available),
-                claimed: Amt::of(&e.claimed),
+                total: Amt::of(&self.assets[DIST], &e.total),
+                avail: Amt::of(&self.assets[DIST], &e.available),
+                claimed: Amt::of(&self.assets[DIST], &e.claimed),
                 total_l: led_of(&self.assets, &e.total),
                 avail_l: led_of(&self.assets, &e.available),
                 claimed_l: led_of(&self.assets, &e.claimed),
@@ -823,12 +905,12 @@ impl World {
             .collect();
         Obs {
             grace: cfg.grace_period.u64(),
-            dbal: bal(&self.app, &self.dist, ASSETS[DIST]),
-            dao: bal(&self.app, &self.dao, ASSETS[DIST]),
+            dbal: bal(&self.app, &self.dist, &self.assets[DIST]),
+            dao: bal(&self.app, &self.dao, &self.assets[DIST]),
             cbal: self.assets.iter().map(|d| bal(&self.app, &self.col, d)).collect(),
             eps,
             trh,
-            ub: self.users.iter().map(|u| bal(&self.app, u, ASSETS[DIST])).collect(),
+            ub: self.users.iter().map(|u| bal(&self.app, u, &self.assets[DIST])).collect(),
             cl,
             pp: (0..self.pools.len()).map(|i| self.pool_pending(i)).collect(),
             vp: (0..self.vaults.len()).map(|i| self.vault_pending(i)).collect(),
@@ -842,7 +924,57 @@ impl World {
             dbala: self.assets.iter().map(|d| bal(&self.app, &self.dist, d)).collect(),
             daoa: self.assets.iter().map(|d| bal(&self.app, &self.dao, d)).collect(),
             uba: self.users.iter().map(|u| self.assets.iter().map(|d| bal(&self.app, u, d)).collect()).collect(),
+            jb: [&self.col, &self.dist, &self.router, &self.lair].map(|c| bal(&self.app, c, JUNK)),
+            lb: self.assets.iter().map(|d| bal(&self.app, &self.lair, d)).collect(),
         }
+    }
+
+    /// what the C07 collection monitors look at besides the observation: bank balances and reported reserves
+    /// of every pair, bank balance and LP supply of every vault, and the unrelated denom / stray holders
+    fn extra(&self) -> Extra {
+        let q = self.app.wrap();
+        let mut x = Extra::default();
+        for (i, pa) in self.pools.iter().enumerate() {
+            let (a, b) = self.pool_assets[i];
+            x.pool_bal.push((bal(&self.app, pa, &self.assets[a]), bal(&self.app, pa, &self.assets[b])));
+            let pr: Result<white_whale_std::pool_network::pair::PoolResponse, _> = q.query_wasm_smart(pa, &p::QueryMsg::Pool {});
+            x.pool_res.push(match pr {
+                Ok(pr) => {
+                    let get = |d: &str| pr.assets.iter().filter(|y| y.info == nat(d)).map(|y| y.amount.u128()).sum::<u128>();
+                    (get(&self.assets[a]), get(&self.assets[b]), pr.total_share.u128())
+                }
+                Err(_) => (u128::MAX, u128::MAX, u128::MAX),
+            });
+            x.junk_elsewhere += bal(&self.app, pa, JUNK);
+            // every OTHER asset of the world on a pair (it trades two of them; anything else is stray)
+            for (k, d) in self.assets.iter().enumerate() {
+                if k != a && k != b {
+                    x.foreign_on_pools += bal(&self.app, pa, d);
+                }
+            }
+        }
+        for (i, va) in self.vaults.iter().enumerate() {
+            x.vault_bal.push(bal(&self.app, va, &self.assets[self.vault_assets[i]]));
+            let cfg: Result<v::Config, _> = q.query_wasm_smart(va, &v::QueryMsg::Config {});
+            let sup = match cfg.map(|c| c.lp_asset) {
+                Ok(AssetInfo::Token { contract_addr }) => q
+                    .query_wasm_smart::<cw20::TokenInfoResponse>(contract_addr, &cw20::Cw20QueryMsg::TokenInfo {})
+                    .map(|t| t.total_supply.u128())
+                    .unwrap_or(u128::MAX),
+                _ => u128::MAX,
+            };
+            x.vault_sup.push(sup);
+            x.junk_elsewhere += bal(&self.app, va, JUNK);
+            for (k, d) in self.assets.iter().enumerate() {
+                if k != self.vault_assets[i] {
+                    x.foreign_on_vaults += bal(&self.app, va, d);
+                }
+            }
+        }
+        for c in [&self.dao, &self.fac, &self.vfac, &self.adv] {
+            x.junk_elsewhere += bal(&self.app, c, JUNK);
+        }
+        x
     }
 
     /// lair `Bonded` view of a user: None = no bonded assets, Some(first_bonded_epoch_id)
@@ -853,6 +985,65 @@ impl World {
             let b: wl::BondedResponse = app.wrap().query_wasm_smart(lair, &wl::QueryMsg::Bonded { address: u.to_string() })?;
             Ok::<_, StdError>(if b.bonded_assets.is_empty() { None } else { Some(b.first_bonded_epoch_id.u64()) })
         })
+    }
+}
+
+/// the contract a message (and therefore the coins attached to it) is addressed to
+#[derive(Clone, Copy, Debug, PartialEq, Eq)]
+enum Receiver {
+    Collector,
+    Distributor,
+    Router,
+    Lair,
+}
+
+/// coins attached to a message beyond what it expects: per asset of the world, and of the unrelated denom
+struct Stray {
+    att: Vec<u128>,
+    att_j: u128,
+    target: Receiver,
+    /// the sender is bonder `i` (its balances are observables)
+    by_user: Option<usize>,
+}
+
+impl Stray {
+    fn is_empty(&self) -> bool {
+        self.att_j == 0 && self.att.iter().all(|x| *x == 0)
+    }
+    /// the observation after the bank moved the coins from the sender to the receiving contract (and before the
+    /// contract ran): what a message that ignores `info.funds` starts from
+    fn gifted(&self, pre: &Obs) -> Obs {
+        let mut o = pre.clone();
+        if self.is_empty() {
+            return o;
+        }
+        for (a, x) in self.att.iter().enumerate() {
+            if let Some(ui) = self.by_user {
+                o.uba[ui][a] = o.uba[ui][a].wrapping_sub(*x);
+                if a == DIST {
+                    o.ub[ui] = o.ub[ui].wrapping_sub(*x);
+                }
+            }
+            match self.target {
+                Receiver::Collector => o.cbal[a] += x,
+                Receiver::Distributor => {
+                    o.dbala[a] += x;
+                    if a == DIST {
+                        o.dbal += x;
+                    }
+                }
+                Receiver::Lair => o.lb[a] += x,
+                Receiver::Router => {}
+            }
+        }
+        let k = match self.target {
+            Receiver::Collector => 0,
+            Receiver::Distributor => 1,
+            Receiver::Router => 2,
+            Receiver::Lair => 3,
+        };
+        o.jb[k] += self.att_j;
+        o
     }
 }
 
@@ -896,6 +1087,7 @@ fn scan_swaps(w: &World, resp: &AppResponse, direct: bool) -> (Vec<SwapEv>, Vec<
                     ask_side,
                     offer: w.assets.iter().position(|d| *d == offer).unwrap_or(usize::MAX),
                     to_collector: get("receiver").as_deref() == Some(w.col.as_str()),
+                    offer_amt: get("offer_amount").and_then(|x| x.parse().ok()).unwrap_or(0),
                     ret: get("return_amount").and_then(|x| x.parse().ok()).unwrap_or(0),
                     pfee: get("protocol_fee_amount").and_then(|x| x.parse().ok()).unwrap_or(0),
                 });
@@ -932,6 +1124,7 @@ struct SwapEv {
     ask_side: usize,
     offer: usize,
     to_collector: bool,
+    offer_amt: u128,
     ret: u128,
     pfee: u128,
 }
@@ -962,6 +1155,8 @@ struct Gen {
     /// the first one early enough that an epoch funded in the old asset is still inside the grace
     /// window when later epochs are created and claimed, and leaves it before the history ends
     switch_rounds: Vec<u64>,
+    /// the scripted direct collection with coins attached (two pairs with collectable fees) has been generated
+    stray_scen_done: bool,
 }
 
 impl Feeflow {
@@ -972,10 +1167,51 @@ impl Feeflow {
         Feeflow { many: variant == "many", ..Feeflow::default() }
     }
 
-    fn run(&mut self, sender: &str, op: &str, args: &[&str], mon: &mut Monitor) -> (String, Vec<String>) {
+    fn run(&mut self, sender: &str, op: &str, args_all: &[&str], mon: &mut Monitor) -> (String, Vec<String>) {
         let w = self.w.as_mut().unwrap();
         let Some(sa) = w.addr_of(sender) else { return ("bad-op".into(), vec![]) };
         let uidx = w.users.iter().position(|u| *u == sa);
+        // ---- trailing stray-coin tokens `+<asset idx>:<amount>` | `+j:<amount>`: coins attached to the message
+        let ncoin = args_all.iter().rev().take_while(|a| a.starts_with('+')).count();
+        let (args, coin_toks) = args_all.split_at(args_all.len() - ncoin);
+        if args.iter().any(|a| a.starts_with('+')) {
+            return ("bad-op".into(), vec![]);
+        }
+        let target = match op {
+            "collect" | "aggregate" | "fwd" | "colcfg" => Some(Receiver::Collector),
+            "newepoch" | "claim" | "grace" | "distasset" => Some(Receiver::Distributor),
+            "bond" | "unbond" => Some(Receiver::Lair),
+            "addroute" | "rmroute" => Some(Receiver::Router),
+            _ => None,
+        };
+        let mut stray = Stray { att: vec![0; w.assets.len()], att_j: 0, target: target.unwrap_or(Receiver::Collector), by_user: uidx };
+        for t in coin_toks {
+            let Some((a, x)) = t[1..].split_once(':') else { return ("bad-op".into(), vec![]) };
+            let Ok(x) = x.parse::<u128>() else { return ("bad-op".into(), vec![]) };
+            if x == 0 {
+                return ("bad-op".into(), vec![]);
+            }
+            if a == "j" {
+                stray.att_j += x;
+            } else {
+                match a.parse::<usize>() {
+                    Ok(a) if a < w.assets.len() => stray.att[a] += x,
+                    _ => return ("bad-op".into(), vec![]),
+                }
+            }
+        }
+        if !stray.is_empty() && (target.is_none() || (target == Some(Receiver::Router) && stray.att.iter().any(|x| *x > 0))) {
+            return ("bad-op".into(), vec![]);
+        }
+        let mut extra_funds: Vec<cosmwasm_std::Coin> =
+            stray.att.iter().enumerate().filter(|(_, x)| **x > 0).map(|(a, x)| coin(*x, w.assets[a].as_str())).collect();
+        if stray.att_j > 0 {
+            extra_funds.push(coin(stray.att_j, JUNK));
+        }
+        extra_funds.sort_by(|a, b| a.denom.cmp(&b.denom));
+        let xf: &[cosmwasm_std::Coin] = &extra_funds;
+        // the C07 collection monitors compare real balances / reserves / supplies around a collection
+        let xpre = if matches!(op, "collect" | "aggregate" | "newepoch") { Some(w.extra()) } else { None };
         let now = w.app.block_info().time.nanos();
         let pre = w.last.clone();
         let mut rec: Vec<String> = vec![];
@@ -990,7 +1226,7 @@ impl Feeflow {
         };
         let outcome: Outcome<AppResponse> = match op {
             "newepoch" => {
-                let o = exec(&mut w.app, &sa, &w.dist.clone(), &fd::ExecuteMsg::NewEpoch {}, &[]);
+                let o = exec(&mut w.app, &sa, &w.dist.clone(), &fd::ExecuteMsg::NewEpoch {}, xf);
                 if let Outcome::Ok(resp) = &o {
                     // recorded router outputs / fee accruals, from the transaction's events
                     let (sw, st) = scan_swaps(w, resp, false);
@@ -1031,16 +1267,19 @@ impl Feeflow {
                     }
                 }
                 rec.push(format!("@sh={}", join(&sh, ",")));
-                exec(&mut w.app, &sa, &w.dist.clone(), &fd::ExecuteMsg::Claim {}, &[])
+                exec(&mut w.app, &sa, &w.dist.clone(), &fd::ExecuteMsg::Claim {}, xf)
             }
             "bond" | "unbond" => {
                 let (Some(d), Some(a)) = (pn(args.first()), pn(args.get(1))) else { return ("bad-op".into(), vec![]) };
                 let denom = BOND_DENOMS[(d as usize) % 2];
                 let asset = Asset { info: nat(denom), amount: a.into() };
                 let o = if op == "bond" {
-                    exec(&mut w.app, &sa, &w.lair.clone(), &wl::ExecuteMsg::Bond { asset }, &coins(a, denom))
+                    let mut f = coins(a, denom);
+                    f.extend(extra_funds.iter().cloned());
+                    f.sort_by(|a, b| a.denom.cmp(&b.denom));
+                    exec(&mut w.app, &sa, &w.lair.clone(), &wl::ExecuteMsg::Bond { asset }, &f)
                 } else {
-                    exec(&mut w.app, &sa, &w.lair.clone(), &wl::ExecuteMsg::Unbond { asset }, &[])
+                    exec(&mut w.app, &sa, &w.lair.clone(), &wl::ExecuteMsg::Unbond { asset }, xf)
                 };
                 let view = w.lair_view(&sa);
                 rec.push(format!("@r={}", out3(&o)));
@@ -1074,7 +1313,7 @@ impl Feeflow {
                         distribution_asset: None,
                         epoch_config: None,
                     },
-                    &[],
+                    xf,
                 )
             }
             "distasset" => {
@@ -1093,7 +1332,7 @@ impl Feeflow {
                         distribution_asset: Some(nat(&w.assets[ai])),
                         epoch_config: None,
                     },
-                    &[],
+                    xf,
                 )
             }
             "colcfg" => {
@@ -1119,7 +1358,7 @@ impl Feeflow {
                         take_rate_dao_address: if daoflag { Some(w.dao.to_string()) } else { None },
                         is_take_rate_active: active,
                     },
-                    &[],
+                    xf,
                 )
             }
             "fwd" => {
@@ -1129,8 +1368,8 @@ impl Feeflow {
                     &mut w.app,
                     &sa,
                     &w.col.clone(),
-                    &fc::ExecuteMsg::ForwardFees { epoch, forward_fees_as: nat(ASSETS[DIST]) },
-                    &[],
+                    &fc::ExecuteMsg::ForwardFees { epoch, forward_fees_as: nat(&w.assets[DIST]) },
+                    xf,
                 )
             }
             "swap" => {
@@ -1227,7 +1466,7 @@ impl Feeflow {
                 } else {
                     r::ExecuteMsg::RemoveSwapRoutes { swap_routes: vec![route] }
                 };
-                exec(&mut w.app, &sa, &w.router.clone(), &m, &[])
+                exec(&mut w.app, &sa, &w.router.clone(), &m, xf)
             }
             "unreg" => {
                 let Some(pi) = pn(args.first()) else { return ("bad-op".into(), vec![]) };
@@ -1269,9 +1508,9 @@ impl Feeflow {
                     page = w.page_of(kind, limit);
                 }
                 let o = if op == "collect" {
-                    exec(&mut w.app, &sa, &w.col.clone(), &fc::ExecuteMsg::CollectFees { collect_fees_for: ff }, &[])
+                    exec(&mut w.app, &sa, &w.col.clone(), &fc::ExecuteMsg::CollectFees { collect_fees_for: ff }, xf)
                 } else {
-                    exec(&mut w.app, &sa, &w.col.clone(), &fc::ExecuteMsg::AggregateFees { aggregate_fees_for: ff }, &[])
+                    exec(&mut w.app, &sa, &w.col.clone(), &fc::ExecuteMsg::AggregateFees { aggregate_fees_for: ff }, xf)
                 };
                 if op == "aggregate" {
                     if let Outcome::Ok(resp) = &o {
@@ -1291,14 +1530,37 @@ impl Feeflow {
             _ => return ("bad-op".into(), vec![]),
         };
         let post = w.observe();
+        let xpost = xpre.as_ref().map(|_| w.extra());
         let o3 = out3(&outcome);
         mon.stat(&format!("op_{op}_{o3}"));
+        if !stray.is_empty() {
+            mon.stat(&format!("stray_{op}_{o3}"));
+            mon.stat(&format!("stray_to_{:?}_{o3}", stray.target));
+            mon.stat(if stray.att_j > 0 && stray.att.iter().any(|x| *x > 0) {
+                "stray_world_asset_and_unrelated_denom"
+            } else if stray.att_j > 0 {
+                "stray_unrelated_denom"
+            } else if stray.att[pre.dist.min(stray.att.len() - 1)] > 0 {
+                "stray_distribution_asset"
+            } else {
+                "stray_other_world_asset"
+            });
+            if op == "bond" {
+                // the lair accepts exactly the one coin being bonded
+                mon.check("C09", "bond_refuses_extra_coins", o3 != "ok", || format!("Bond by {sender} with extra coins {} was accepted", args_all.join(" ")));
+            }
+        }
+        // an op with coins attached is judged as the op after the gift: `pre` + the coins on the receiving contract
+        let pre = if o3 == "ok" { stray.gifted(&pre) } else { pre };
         if let Outcome::Err(e) = &outcome {
             if std::env::var("FEEFLOW_DEBUG").is_ok() {
                 eprintln!("ERR {op} {sender}: {e}");
             }
         }
         Self::monitors(w, mon, &pre, &post, sender, uidx, op, args, o3, &swaps, &stage_of_swap, &page);
+        if o3 == "ok" {
+            Self::monitor_stray(w, mon, &pre, &post, sender, op, args_all, &stray, &swaps, xpre.as_ref(), xpost.as_ref());
+        }
         w.last = post.clone();
         (format!("{o3} {}", post.line()), rec)
     }
@@ -1699,6 +1961,145 @@ impl Feeflow {
                     );
                 }
             }
+        }
+    }
+
+    /// C07 / C10 on the real balances around every successful op, in particular a direct (`collect`) or pipeline
+    /// (`newepoch`) collection: each pair / vault pays the collector exactly its pending fees above the threshold
+    /// and nothing else moves — pair reserves and vault share backing unchanged (reserves move only by what the
+    /// aggregation swaps of the same transaction traded) — and whatever coins the caller attached are on the
+    /// contract the message was addressed to (`pre` already has them there) and nowhere else.
+    #[allow(clippy::too_many_arguments)]
+    fn monitor_stray(
+        w: &World,
+        mon: &mut Monitor,
+        pre: &Obs,
+        post: &Obs,
+        sender: &str,
+        op: &str,
+        args_all: &[&str],
+        stray: &Stray,
+        swaps: &[SwapEv],
+        xpre: Option<&Extra>,
+        xpost: Option<&Extra>,
+    ) {
+        let line = format!("{op} by {sender} {}", args_all.join(" "));
+        let both = |mon: &mut Monitor, name: &str, ok: bool, what: String| {
+            mon.check("C07", name, ok, || what.clone());
+            mon.check("C10", name, ok, || what.clone());
+        };
+        // the unrelated denom and the lair's balances move only as coins attached to a message addressed there
+        both(
+            mon,
+            "stray_coins_stay_on_receiver",
+            post.jb == pre.jb && post.lb == pre.lb,
+            format!("{line}: unrelated denom on collector/distributor/router/lair {:?} -> {:?} (expected, with the attached coins on the receiver), lair {:?} -> {:?}", pre.jb, post.jb, pre.lb, post.lb),
+        );
+        // coins attached to an op that is no collection: the collector's / distributor's balances are exactly
+        // the old ones plus the coins (the ops that move balances have their own exactness monitors)
+        if matches!(op, "colcfg" | "grace" | "distasset" | "addroute" | "rmroute" | "bond" | "unbond") {
+            both(
+                mon,
+                "stray_coins_stay_on_receiver",
+                post.cbal == pre.cbal && post.dbala == pre.dbala && post.daoa == pre.daoa && post.uba == pre.uba,
+                format!("{line}: balances beyond the attached coins changed: collector {:?} -> {:?}, distributor {:?} -> {:?}, bonders {:?} -> {:?}", pre.cbal, post.cbal, pre.dbala, post.dbala, pre.uba, post.uba),
+            );
+        }
+        let (Some(x0), Some(x1)) = (xpre, xpost) else { return };
+        if !stray.is_empty() {
+            mon.stat(&format!("stray_on_{op}_checked"));
+        }
+        both(
+            mon,
+            "collect_attached_coins_nowhere_else",
+            x1.junk_elsewhere == 0 && x1.foreign_on_pools == x0.foreign_on_pools && x1.foreign_on_vaults == x0.foreign_on_vaults,
+            format!(
+                "{line}: coins that are none of its business on a pair / vault / factory / the DAO: unrelated denom {} -> {}, foreign assets on pairs {} -> {}, on vaults {} -> {}",
+                x0.junk_elsewhere, x1.junk_elsewhere, x0.foreign_on_pools, x1.foreign_on_pools, x0.foreign_on_vaults, x1.foreign_on_vaults
+            ),
+        );
+        let na = w.assets.len();
+        let mut collected = vec![0u128; na];
+        // ---- pairs: (offer in, return out, protocol fee accrued) per pool side from the swap events
+        for (i, (a, b)) in w.pool_assets.iter().enumerate() {
+            let sides = [(0usize, *a, pre.pp[i].0, post.pp[i].0, x0.pool_bal[i].0, x1.pool_bal[i].0, x0.pool_res[i].0, x1.pool_res[i].0),
+                         (1usize, *b, pre.pp[i].1, post.pp[i].1, x0.pool_bal[i].1, x1.pool_bal[i].1, x0.pool_res[i].1, x1.pool_res[i].1)];
+            for (sd, asset, p0, p1, b0, b1, r0, r1) in sides {
+                let offer_in: u128 = swaps.iter().filter(|s| s.pool == i && s.ask_side != sd).map(|s| s.offer_amt).sum();
+                let ret_out: u128 = swaps.iter().filter(|s| s.pool == i && s.ask_side == sd).map(|s| s.ret).sum();
+                let accrued: u128 = swaps.iter().filter(|s| s.pool == i && s.ask_side == sd).map(|s| s.pfee).sum();
+                // what the pair paid out of its pending ledger
+                let paid = (p0 + accrued).wrapping_sub(p1);
+                let exact = p1 <= p0 + accrued && (paid == 0 || (paid == p0 && p0 > THRESH && op != "aggregate"));
+                both(
+                    mon,
+                    "collect_moves_exactly_pending",
+                    exact,
+                    format!("{line}: pair {i} side {sd} ({}): pending {p0} (+{accrued} accrued by aggregation swaps) -> {p1}: neither kept nor paid in full above the threshold", w.assets[asset]),
+                );
+                both(
+                    mon,
+                    "collect_moves_exactly_pending",
+                    b1 + paid.min(p0) + ret_out == b0 + offer_in,
+                    format!("{line}: pair {i} side {sd} ({}): bank balance {b0} -> {b1} but it paid {paid} pending fees, swaps brought {offer_in} and took {ret_out}", w.assets[asset]),
+                );
+                both(
+                    mon,
+                    "collect_reserves_unchanged",
+                    r1 + ret_out + accrued == r0 + offer_in && x1.pool_res[i].2 == x0.pool_res[i].2,
+                    format!("{line}: pair {i} side {sd} ({}): reported reserve {r0} -> {r1} (swaps of this transaction: +{offer_in} -{ret_out} -{accrued} fee), LP supply {} -> {}", w.assets[asset], x0.pool_res[i].2, x1.pool_res[i].2),
+                );
+                if exact {
+                    collected[asset] += paid;
+                }
+            }
+        }
+        // ---- vaults: pays all of its pending fees or nothing; share backing (balance - pending) and LP supply unchanged
+        for (i, a) in w.vault_assets.iter().enumerate() {
+            let (p0, p1, b0, b1) = (pre.vp[i], post.vp[i], x0.vault_bal[i], x1.vault_bal[i]);
+            let paid = p0.wrapping_sub(p1);
+            let exact = p1 <= p0 && (paid == 0 || (p1 == 0 && op != "aggregate"));
+            both(mon, "collect_moves_exactly_pending", exact, format!("{line}: vault {i} ({}): pending {p0} -> {p1}", w.assets[*a]));
+            both(
+                mon,
+                "collect_moves_exactly_pending",
+                b1 + paid.min(p0) == b0,
+                format!("{line}: vault {i} ({}): bank balance {b0} -> {b1} but it paid {paid} pending fees", w.assets[*a]),
+            );
+            both(
+                mon,
+                "collect_reserves_unchanged",
+                b1.wrapping_sub(p1) == b0.wrapping_sub(p0) && x1.vault_sup[i] == x0.vault_sup[i],
+                format!("{line}: vault {i} ({}): share backing {} -> {}, LP supply {} -> {}", w.assets[*a], b0.wrapping_sub(p0), b1.wrapping_sub(p1), x0.vault_sup[i], x1.vault_sup[i]),
+            );
+            if exact {
+                collected[*a] += paid;
+            }
+        }
+        // ---- the collector: a direct collection leaves exactly old balance (+ attached coins) + collected; the
+        // pipeline / a direct aggregation then swaps an asset in full or not at all
+        let dist = pre.dist;
+        for a in 0..na {
+            let have = pre.cbal[a] + collected[a];
+            let ok = match op {
+                "collect" => post.cbal[a] == have,
+                _ if a == dist => true, // judged by pipeline_conservation / direct_aggregate_only_converts
+                _ => post.cbal[a] == have || post.cbal[a] == 0,
+            };
+            both(
+                mon,
+                "collect_reaches_collector",
+                ok,
+                format!("{line}: collector {}: {} (incl. attached coins) + {} paid by pairs / vaults -> {}", w.assets[a], pre.cbal[a], collected[a], post.cbal[a]),
+            );
+        }
+        if op == "collect" && !stray.is_empty() {
+            let np = w.pool_assets.iter().enumerate().filter(|(i, _)| pre.pp[*i].0 > post.pp[*i].0 || pre.pp[*i].1 > post.pp[*i].1).count();
+            mon.stat(match np {
+                0 => "stray_collect_paid_by_0_pairs",
+                1 => "stray_collect_paid_by_1_pair",
+                _ => "stray_collect_paid_by_2plus_pairs",
+            });
         }
     }
 
@@ -2168,6 +2569,7 @@ impl Engine for Feeflow {
                 setup: vec![],
                 scen_round: u64::MAX,
                 bond_edge_round: u64::MAX,
+                stray_scen_done: false,
                 switch_rounds: {
                     // 1 history in 4 keeps one distribution asset throughout; the others switch 1 … 3 times
                     let rounds = grace + 2 + extra;
@@ -2199,6 +2601,14 @@ impl Engine for Feeflow {
             // which assets have a vault: an asset with a pool but no vault is only aggregated in the
             // last (pools) stage of ForwardFees
             let vaults = *rng.pick(&["2,1,0", "2,1,0", "2,1", "2,0", "1,0", "2,1,0"]);
+            // denom shapes (see `base_denoms`): 2 in 5 base worlds keep the plain denoms
+            let dn = if self.many {
+                *rng.pick(&[0u64, 0, 5])
+            } else {
+                *rng.pick(&[0u64, 0, 0, 0, 1, 1, 2, 3, 4, 5])
+            };
+            // no vault can be created for a token-factory denom (cw20 LP symbol rules)
+            let vaults = if dn == 2 { "1,0" } else { vaults };
             if self.many {
                 // 9 / 10 / 12 filler assets (indices 3 …), each with a pair against the distribution
                 // asset and a vault, created in shuffled order after the three base pairs / vaults:
@@ -2228,7 +2638,7 @@ impl Engine for Feeflow {
                     }
                 }
                 return Some(format!(
-                    "init feeflow grace={grace} genesis={genesis} dur={DAY} pools={} vaults={} dist={DIST} nusers={NUSERS} pf={} vf={} growth={growth}",
+                    "init feeflow grace={grace} genesis={genesis} dur={DAY} pools={} vaults={} dist={DIST} nusers={NUSERS} pf={} vf={} growth={growth} dn={dn}",
                     pools.join(","),
                     vl.join(","),
                     join(&pf, ","),
@@ -2236,7 +2646,7 @@ impl Engine for Feeflow {
                 ));
             }
             return Some(format!(
-                "init feeflow grace={grace} genesis={genesis} dur={DAY} pools=0.2,1.2,0.1 vaults={vaults} dist={DIST} nusers={NUSERS} pf={} vf={} growth={growth}",
+                "init feeflow grace={grace} genesis={genesis} dur={DAY} pools=0.2,1.2,0.1 vaults={vaults} dist={DIST} nusers={NUSERS} pf={} vf={} growth={growth} dn={dn}",
                 join(&pf, ","),
                 join(&vfs, ",")
             ));
@@ -2246,7 +2656,66 @@ impl Engine for Feeflow {
         self.g.h += 1;
         let mut it = body.splitn(3, ' ');
         let (sender, op, args) = (it.next().unwrap_or(""), it.next().unwrap_or(""), it.next().unwrap_or(""));
-        Some(format!("{op} {} {} {sender} {args}", self.g.h, self.g.t).trim_end().to_string())
+        let mut line = format!("{op} {} {} {sender} {args}", self.g.h, self.g.t).trim_end().to_string();
+        if let Some(tok) = self.gen_stray(rng, sender, op, args) {
+            line.push(' ');
+            line.push_str(&tok);
+        }
+        Some(line)
+    }
+}
+
+impl Feeflow {
+    /// about 1 in 20 of the execute messages that expect no coins carries some: coins of an asset of the world
+    /// (often the current distribution asset), of the unrelated denom, or both
+    fn gen_stray(&self, rng: &mut Rng, sender: &str, op: &str, args: &str) -> Option<String> {
+        let eligible = matches!(
+            op,
+            "collect" | "aggregate" | "newepoch" | "claim" | "fwd" | "colcfg" | "grace" | "distasset" | "addroute" | "rmroute" | "bond" | "unbond"
+        );
+        if !eligible || args.contains('+') || !rng.chance(1, 20) {
+            return None;
+        }
+        let w = self.w.as_ref()?;
+        let last = &w.last;
+        let na = w.assets.len();
+        let amount = |rng: &mut Rng| -> u128 {
+            match rng.below(7) {
+                0 => 1,
+                1 => 999,
+                2 => 1000,
+                3 => 1001,
+                4 => 5000,
+                _ => rng.log_uniform(24),
+            }
+        };
+        let junk = format!("+j:{}", amount(rng));
+        if matches!(op, "addroute" | "rmroute") {
+            return Some(junk);
+        }
+        let kind = rng.below(10);
+        if kind < 4 {
+            return Some(junk);
+        }
+        // an asset of the world: the current distribution asset, or any
+        let a = if rng.chance(2, 5) { last.dist.min(na - 1) } else { rng.below(na as u64) as usize };
+        let mut x = amount(rng);
+        if let Some(ui) = sender.strip_prefix('u').and_then(|i| i.parse::<usize>().ok()) {
+            // a bonder holds only what it claimed: attach part / all of it (1 in 8: more than it holds -> refused)
+            let held: Vec<usize> = (0..na).filter(|a| last.uba.get(ui).map(|u| u[*a] > 0).unwrap_or(false)).collect();
+            if held.is_empty() {
+                return Some(junk);
+            }
+            let a = if held.contains(&a) { a } else { *rng.pick(&held) };
+            let have = last.uba[ui][a];
+            x = match rng.below(8) {
+                0 => have + 1,
+                1 | 2 => have,
+                _ => x.min(have),
+            };
+            return Some(if kind < 9 { format!("+{a}:{x}") } else { format!("+{a}:{x} {junk}") });
+        }
+        Some(if kind < 9 { format!("+{a}:{x}") } else { format!("+{a}:{x} {junk}") })
     }
 }
 
@@ -2401,6 +2870,41 @@ impl Feeflow {
                 _ => rng.log_uniform(30),
             };
             return Some(format!("admin loan {vi} {amt}"));
+        }
+        // a DIRECT COLLECTION WITH COINS ATTACHED while two pairs hold collectable fees in the same asset (once
+        // per history, 1 history in 2): two trades leave > 1000 pending of asset 2 in the pairs 0/2 and 1/2, the
+        // collector is given some of the asset, then anybody sends CollectFees (factory page / one pair) with
+        // coins of that asset and / or the unrelated denom attached
+        if !self.g.stray_scen_done && n_epochs >= 1 && np >= 2 && rng.chance(1, 8) {
+            self.g.stray_scen_done = true;
+            if rng.chance(1, 2) {
+                let who = match rng.below(4) {
+                    0 => "admin".to_string(),
+                    1 => "stranger".to_string(),
+                    2 => "trader".to_string(),
+                    _ => format!("u{}", rng.below(NUSERS as u64)),
+                };
+                let x = *rng.pick(&[1u128, 7, 250, 999]);
+                let coins = if who.starts_with('u') {
+                    format!("+j:{x}")
+                } else {
+                    match rng.below(4) {
+                        0 => format!("+j:{x}"),
+                        1 => format!("+2:{x} +j:{}", x + 1),
+                        _ => format!("+2:{x}"),
+                    }
+                };
+                let target = match rng.below(4) {
+                    0 => "pool 0".to_string(),
+                    1 => "pool 1".to_string(),
+                    _ => "pfac".to_string(),
+                };
+                // popped from the end
+                self.g.setup.push(format!("{who} collect {target} {coins}"));
+                self.g.setup.push(format!("admin gift col 2 {}", 2000 + rng.below(3000)));
+                self.g.setup.push(format!("trader swap 1 0 {}", 2_000_000 + rng.below(1_000_000)));
+                return Some(format!("trader swap 0 0 {}", 2_000_000 + rng.below(1_000_000)));
+            }
         }
         let u = rng.below(4); // u4 never bonds
         let k = rng.below(100);
